@@ -23,3 +23,14 @@ Print Assumptions C13_only_ttl_plain.
 (* non-vacuity *)
 Example C13_dec_example : decttl [1; 0] = (1, [0; 255]) /\ decttl [0; 1] = (0, [0; 0]) /\ decttl [] = (0, []).
 Proof. vm_compute. repeat split. Qed.
+
+From RSP Require Import Proxy Slots_proofs Dup_proofs Reply_proofs Forward_proofs.
+Local Open Scope N_scope.
+
+(* loop prevention through the handler: a request is never placed in the table of a server whose block name
+   equals the client block's name when LoopPrevention is on for that server or (server unset) globally *)
+Theorem C13_no_loop : forall md5 rx cfg fs st h c now rnd s i b,
+  In (OEnq s i b) (snd (radsrv md5 rx cfg fs st h c now rnd)) ->
+  loop_prevented cfg (clconf_of cfg c) (srvconf_of cfg s) = false.
+Proof. exact forward_not_looped. Qed.
+Print Assumptions C13_no_loop.
